@@ -55,12 +55,12 @@ func val(v interface{}, err error, closed error) (int, string) {
 // ---- model ----
 
 type model struct {
-	kind             string // pipe | mq | syncq | priq
-	ctrl, req        []int
-	pri              []pitem
-	closed, cleared  bool
-	capCtrl, capReq  int
-	seqNo            int
+	kind            string // pipe | mq | syncq | priq
+	ctrl, req       []int
+	pri             []pitem
+	closed, cleared bool
+	capCtrl, capReq int
+	seqNo           int
 }
 
 type pitem struct{ v, p, seq int }
